@@ -646,7 +646,9 @@ def optimize(*args, traverse=True, **kwargs):
     # well
     collections, repack = unpack_collections(*args, traverse=traverse)
     if not collections:
-        return args
+        # the traversal consumed any iterator among the arguments: hand back the
+        # rebuilt arguments (iterators as lists), not the exhausted originals
+        return repack([]) if traverse else args
 
     from dask._expr import CompositeExpr, _ExprSequence
 
@@ -734,7 +736,9 @@ def compute(
 
     collections, repack = unpack_collections(*args, traverse=traverse)
     if not collections:
-        return args
+        # the traversal consumed any iterator among the arguments: hand back the
+        # rebuilt arguments (iterators as lists), not the exhausted originals
+        return repack([]) if traverse else args
 
     schedule = get_scheduler(
         scheduler=scheduler,
@@ -1075,7 +1079,9 @@ def persist(*args, traverse=True, optimize_graph=True, scheduler=None, **kwargs)
     """
     collections, repack = unpack_collections(*args, traverse=traverse)
     if not collections:
-        return args
+        # the traversal consumed any iterator among the arguments: hand back the
+        # rebuilt arguments (iterators as lists), not the exhausted originals
+        return repack([]) if traverse else args
 
     schedule = get_scheduler(scheduler=scheduler, collections=collections)
 
